@@ -119,3 +119,106 @@ def lemmas(repo, N, which=("R01", "R2", "NEST")):
         mk("NEST-step", hs, z3.And(dig >= 0, dig <= D - 1, *g),
            "level j+1: cell index = 2*parent + bit per axis, subinterval number = D*parent + digit")
     return obs
+
+
+# ----------------------------------------------------------------------------- C09: inverse loop vs forward loop
+ILABEL = "Evolvent.__GetXonY#loop0"
+
+
+def inverse_records(repo, N):
+    ef = verify.make_engine(repo, ce.SCHEMA, [ce.calculate_node(N)],
+                            {(ce.FILE, "Evolvent.__GetYonX", 0): ce.getyonx_loop(N)}, ce.SPEC_FUNCS, inline=set(), prefix="f_")
+    ef.verify_function(ce.getyonx(N))
+    ei = verify.make_engine(repo, ce.SCHEMA, [ce.calculate_numbr(N)],
+                            {(ce.FILE, "Evolvent.__GetXonY", 0): ce.getxony_loop(N)}, ce.SPEC_FUNCS, inline=set(), prefix="i_")
+    ei.verify_function(ce.getxony(N))
+    rf, ri = ef.loop_records[LABEL], ei.loop_records[ILABEL]
+    if len(rf["posts"]) != 1 or len(ri["posts"]) != 1:
+        raise EngineError("expected one merged post-state per loop body")
+    return (ef, rf), (ei, ri)
+
+
+def fview(eng, st, N):
+    env = st.env
+    yv = eng.load(st, env["self"], "yValues")
+    return dict(it=to_z3(env["it"], IntS), sg=[to_z3(eng.vec_get(st, env["iw"], i), IntS) for i in range(N)],
+                gidx=to_z3(env["gidx"], IntS), r=to_z3(env["r"], RealS),
+                y=[to_z3(eng.vec_get(st, yv, i), RealS) for i in range(N)],
+                iis=to_z3(env["iis"], RealS) if "iis" in env and not isinstance(env["iis"], Poison) else None)
+
+
+def iview(eng, st, N):
+    env = st.env
+    yv = eng.load(st, env["self"], "yValues")
+    return dict(it=to_z3(env["it"], IntS), sg=[to_z3(eng.vec_get(st, env["w"], i), IntS) for i in range(N)],
+                gidx=to_z3(env["gidx"], IntS), r=to_z3(env["r"], RealS),
+                y=[to_z3(eng.vec_get(st, yv, i), RealS) for i in range(N)],
+                iis=to_z3(env["iis"], RealS) if "iis" in env and not isinstance(env["iis"], Poison) else None)
+
+
+def Cpl(Fv, Iv, T, N):
+    return z3.And(Fv["it"] == Iv["it"], Fv["gidx"] == Iv["gidx"], Fv["r"] == Iv["r"],
+                  *([Fv["sg"][i] == Iv["sg"][i] for i in range(N)] + [Fv["y"][i] + Iv["y"][i] == T[i] for i in range(N)]))
+
+
+def inverse_lemmas(repo, N):
+    """Lock-step coupling R3 of the inverse loop (__GetXonY) with the forward loop (__GetYonX) driven by the digits
+    the inverse loop produces: same orientation state, same subinterval number, residual + forward centre = target."""
+    (ef, rf), (ei, ri) = inverse_records(repo, N)
+    obs = []
+    cfg = "[N=%d]" % N
+
+    def mk(name, hyps, goal, note):
+        obs.append(Obligation("Evolvent.__GetXonY x __GetYonX:%s:L0#%d%s" % (name, len(obs), cfg), name,
+                              "Evolvent.__GetXonY x Evolvent.__GetYonX (lock-step product)", 0, hyps, goal, note))
+    ax = list(ef.axioms) + list(ei.axioms)
+    T = [z3.Real("rel_T%d" % i) for i in range(N)]
+    ent_f, ent_i = fview(ef, rf["entry"], N), iview(ei, ri["entry"], N)
+    pre_f, pre_i = fview(ef, rf["pre"], N), iview(ei, ri["pre"], N)
+    post_f, post_i = fview(ef, rf["posts"][0], N), iview(ei, ri["posts"][0], N)
+    mk("R3-entry", ax + list(rf["entry"].pc) + list(ri["entry"].pc), Cpl(ent_f, ent_i, ent_i["y"], N),
+       "coupling R3 holds at loop entry with target = the cube point handed to __GetXonY")
+    mk("R3-step", ax + list(rf["posts"][0].pc) + list(ri["posts"][0].pc) + [Cpl(pre_f, pre_i, T, N), post_f["iis"] == post_i["iis"]],
+       Cpl(post_f, post_i, T, N),
+       "R3 preserved by one level when the forward run reads the digit the inverse run just produced")
+    mk("R3-cell-contains-target", ax + list(rf["pre"].pc) + list(ri["pre"].pc) + [Cpl(pre_f, pre_i, T, N)],
+       z3.And(*[z3.And(T[i] - pre_f["y"][i] <= pre_f["r"], pre_f["y"][i] - T[i] <= pre_f["r"]) for i in range(N)]),
+       "the forward cell centre of the returned subinterval is within half a cell of the target on every axis")
+    return obs
+
+
+def inverse_self_lemmas(repo, N):
+    """R4 (C17): two runs of the inverse loop started from equal cube points stay equal, whatever the objects'
+    earlier histories were - the result of __GetXonY is a function of the cube point, N and the loop count."""
+    recs = {}
+    for pfx in ("a_", "b_"):
+        ei = verify.make_engine(repo, ce.SCHEMA, [ce.calculate_numbr(N)],
+                                {(ce.FILE, "Evolvent.__GetXonY", 0): ce.getxony_loop(N)}, ce.SPEC_FUNCS, inline=set(), prefix=pfx)
+        ei.verify_function(ce.getxony(N))
+        rec = ei.loop_records[ILABEL]
+        if len(rec["posts"]) != 1:
+            raise EngineError("expected one merged post-state of the inverse loop body")
+        recs[pfx] = (ei, rec)
+    (ea, ra), (eb, rb) = recs["a_"], recs["b_"]
+    obs = []
+    cfg = "[N=%d]" % N
+
+    def mk(name, hyps, goal, note):
+        obs.append(Obligation("Evolvent.__GetXonY(x2):%s:L0#%d%s" % (name, len(obs), cfg), name,
+                              "Evolvent.__GetXonY (2-run product)", 0, hyps, goal, note))
+
+    def eqv(A, B, sa, sb):
+        xa, xb = to_z3(sa.env["x"], RealS), to_z3(sb.env["x"], RealS)
+        r1a, r1b = to_z3(sa.env["r1"], RealS), to_z3(sb.env["r1"], RealS)
+        return z3.And(A["it"] == B["it"], A["r"] == B["r"], xa == xb, r1a == r1b,
+                      *([A["sg"][i] == B["sg"][i] for i in range(N)] + [A["y"][i] == B["y"][i] for i in range(N)]))
+    ax = list(ea.axioms) + list(eb.axioms)
+    ent_a, ent_b = iview(ea, ra["entry"], N), iview(eb, rb["entry"], N)
+    pre_a, pre_b = iview(ea, ra["pre"], N), iview(eb, rb["pre"], N)
+    post_a, post_b = iview(ea, ra["posts"][0], N), iview(eb, rb["posts"][0], N)
+    same_target = z3.And(*[ent_a["y"][i] == ent_b["y"][i] for i in range(N)])
+    mk("R4-entry", ax + list(ra["entry"].pc) + list(rb["entry"].pc) + [same_target],
+       eqv(ent_a, ent_b, ra["entry"], rb["entry"]), "equal cube points => equal loop-entry states (no other state is read)")
+    mk("R4-step", ax + list(ra["posts"][0].pc) + list(rb["posts"][0].pc) + [eqv(pre_a, pre_b, ra["pre"], rb["pre"])],
+       eqv(post_a, post_b, ra["posts"][0], rb["posts"][0]), "equal states stay equal over one level of the inverse loop")
+    return obs
